@@ -1,12 +1,37 @@
-"""Driver for C19 (Bandit.tla): executes operation scripts on real NeuralUCB / NeuralTS agents and records,
-after every operation, the confidence matrix of every slot.
+"""Driver for C19 (Bandit.tla): executes operation scripts -- and the real `train_bandits` loop -- on real
+NeuralUCB / NeuralTS agents and records, after every operation, the confidence matrix of every slot.
 
 Actor kinds
   lin / linb   LinFeat below: the whole network is one linear output layer over the first k context
                coordinates (without / with bias).  The gradient feature of an arm is then its integer
                context (plus a 1 for the bias), every matrix is an exact rational -> Bandit_Trace (exact mode)
-  mlp          a tiny EvolvableMLP passed as `actor_network`
-  default      the agent's own default ValueNetwork (zoo.make_agent)           -> Banditx_Trace (inexact mode)
+  mlp          a tiny EvolvableMLP passed as `actor_network` (context size from opts["nobs"])
+  vnet         a ValueNetwork instance passed as `actor_network`
+  default      the agent's own ValueNetwork built from `net_config` (zoo.make_agent, vector contexts)
+  plain        net_config=None (the library's default encoder / head / latent size)
+  custom       net_config with a custom encoder, a two-layer head with layer norm + Tanh output activation, latent_dim 6
+  deep         encoder / head at their maximum number of layers (add_layer falls back to add_node)
+  simba        net_config = {"simba": True, ...}
+  image        image contexts (3,16,16) -> CNN encoder; opts: uint8 contexts, normalize_images
+  dict / tuple / discrete   non-flat context spaces                             -> Banditx_Trace (inexact mode)
+
+Operations of a script (tuples; optional trailing fields may be omitted)
+  ("create", s, k[, lamb])                   new agent in slot s (k: size of the linear actors); own lambda (heterogeneous members)
+  ("decide", s, cseed, mask[, var[, train]]) get_action(context, action_mask); contexts: float32 / float64 ndarray / torch tensor by cseed % 3; mask: None | 0/1 list | "ones" | "single" |
+                                             "notop" (forbids the arm with the best score the driver computes);
+                                             var: "int" | "bool" | "float" | "col" (dtype / shape (arms,1) of the ndarray);
+                                             train: None | True | False -> set_training_mode before the call
+  ("learn", s, b)   ("test", s, n)           learn step on batch b / agent.test(env, max_steps=n) (evaluation run)
+  ("mutate", s, kind[, via])                 kind: none | arch | archl | arch#i / arch@name (i-th / named architecture method of the
+                                             actor, forced through the Mutations object's random generator) | param | act | hp;
+                                             via: "pop" Mutations.mutation([agent]) | "pre" (pre_training_mut=True) |
+                                             "direct" (the public method: architecture_mutate / parameter_mutation / ...)
+  ("clone", a, c[, idx])                     idx: "given" clone(index=..) | "none" clone()
+  ("save", a, f)  ("loadnew", f, c)  ("loadinto", f, a)
+Train jobs run agilerl.training.train_bandits.train_bandits (real ReplayBuffer, Sampler, TournamentSelection, Mutations,
+BanditEnv / an integer-context environment) with the agents' classes wrapped driver-side (get_action, learn, test, clone,
+save_checkpoint, Mutations.mutation) so that every operation the loop performs becomes an event of the trace; clones get
+new slots.
 
 Nothing of the code under test is stubbed.  The gradient features are recomputed by the driver from the
 agent's *network* (torch.autograd.grad w.r.t. the parameters of actor.get_output_dense(), divided by
@@ -15,9 +40,12 @@ the value get_action returns.
 """
 from __future__ import annotations
 
+import json
 import os
+import random
 import shutil
 import tempfile
+import traceback
 from fractions import Fraction
 
 import numpy as np
@@ -30,8 +58,12 @@ from agilerl.modules.base import EvolvableModule, MutationType, mutation
 from .. import zoo
 from .evo import KIND_ARGS
 
-NIN = 3            # context size of the linear actors
+NIN = 3            # default context size of the linear actors
 BIG = 10 ** 9
+NSLOTS = 12        # every trace is padded to this number of slots (train jobs allocate a new slot per clone)
+NFILES = 4
+EXACT = ("lin", "linb")
+BOX_FAMILIES = ("lin", "linb", "mlp", "vnet", "default", "plain", "custom", "deep", "simba", "image")     # agent.test needs ndarray contexts
 
 
 class LinFeat(EvolvableModule):
@@ -83,25 +115,93 @@ class LinFeat(EvolvableModule):
         self.out = EvolvableModule.preserve_parameters(old_net=self.out, new_net=new)
 
 
-def make_agent(algo: str, actor: str, lamb: float, gamma: float, seed: int, index: int, k: int = 2, arms: int = 3):
-    zoo.seed_all(seed)
-    if actor == "default":
-        return zoo.make_agent(algo, "vector", seed=seed, index=index, lamb=lamb, gamma=gamma)
+def _hp(algo: str, opts: dict):
+    from agilerl.algorithms.core.registry import HyperparameterConfig, RLParameter
+    if opts.get("lam_hp"):
+        # lambda (and gamma) listed among the mutable hyper-parameters; factors 2 / 0.5 keep lambda an exact small rational
+        return HyperparameterConfig(lamb=RLParameter(min=0.5, max=4.0, shrink_factor=0.5, grow_factor=2.0),
+                                    gamma=RLParameter(min=0.25, max=4.0, shrink_factor=0.5, grow_factor=2.0))
+    return zoo.hp_config(algo)
+
+
+def obs_space_of(actor: str, opts: dict):
+    if actor in EXACT:
+        return spaces.Box(-3.0, 3.0, (int(opts.get("nin", NIN)),), dtype=np.float32)
+    if actor in ("mlp", "vnet", "plain", "custom", "simba"):
+        return spaces.Box(-1.0, 1.0, (int(opts.get("nobs", 4)),), dtype=np.float32)
+    if actor == "image":
+        if opts.get("uint8"):
+            return spaces.Box(0, 255, (3, 16, 16), dtype=np.uint8)
+        return spaces.Box(0.0, 1.0, (3, 16, 16), dtype=np.float32)
+    if actor in ("dict", "tuple", "discrete"):
+        return zoo.obs_space(actor)
+    if actor == "box2d":
+        return spaces.Box(-1.0, 1.0, (2, 3), dtype=np.float32)
+    return zoo.obs_space("vector")            # default / deep
+
+
+def agent_spec(algo: str, actor: str, lamb, gamma, k: int = 2, arms: int = 3, opts: dict = None):
+    """(class, observation space, constructor keyword arguments without `index`)"""
+    opts = opts or {}
     if algo == "NeuralUCB":
         from agilerl.algorithms.neural_ucb_bandit import NeuralUCB as cls
     else:
         from agilerl.algorithms.neural_ts_bandit import NeuralTS as cls
-    if actor in ("lin", "linb"):
-        osp = spaces.Box(-3.0, 3.0, (NIN,), dtype=np.float32)
-        net = LinFeat(NIN, k, bias=(actor == "linb"))
+    osp = obs_space_of(actor, opts)
+    kw = dict(hp_config=_hp(algo, opts), lamb=lamb, gamma=gamma, batch_size=int(opts.get("batch_size", 8)),
+              lr=float(opts.get("lr", 1e-3)))
+    for name in ("reg", "learn_step", "normalize_images"):
+        if name in opts:
+            kw[name] = opts[name]
+    if actor in EXACT:
+        nin = int(opts.get("nin", NIN))
+        kw["actor_network"] = LinFeat(nin, min(k, nin - (1 if actor == "linb" else 0)), bias=(actor == "linb"))
     elif actor == "mlp":
         from agilerl.modules.mlp import EvolvableMLP
-        osp = spaces.Box(-1.0, 1.0, (4,), dtype=np.float32)
-        net = EvolvableMLP(num_inputs=4, num_outputs=1, hidden_size=[8], min_mlp_nodes=2, max_mlp_nodes=40, layer_norm=False)
+        kw["actor_network"] = EvolvableMLP(num_inputs=int(osp.shape[0]), num_outputs=1, hidden_size=[8], min_mlp_nodes=2, max_mlp_nodes=40,
+                                           layer_norm=False)
+    elif actor == "vnet":
+        from agilerl.networks.value_networks import ValueNetwork
+        kw["actor_network"] = ValueNetwork(osp, encoder_config={"hidden_size": [8], "min_mlp_nodes": 2, "layer_norm": False},
+                                           head_config={"hidden_size": [6], "min_mlp_nodes": 2}, latent_dim=8)
+    elif actor == "plain":
+        kw["net_config"] = None
+    elif actor == "custom":
+        kw["net_config"] = {"encoder_config": {"hidden_size": [8], "min_mlp_nodes": 2, "activation": "ELU"},
+                            "head_config": {"hidden_size": [8, 12], "min_mlp_nodes": 2, "layer_norm": True, "output_activation": "Tanh",
+                                            "activation": "GELU", "output_vanish": False},
+                            "latent_dim": 6, "min_latent_dim": 2, "max_latent_dim": 12}
+    elif actor == "simba":
+        kw["net_config"] = {"simba": True, "encoder_config": {"hidden_size": 16, "num_blocks": 1}, "head_config": {"hidden_size": [16]}}
+    elif actor in ("image", "dict", "tuple", "discrete", "deep"):
+        kw["net_config"] = zoo.net_config(actor)
+    elif actor == "box2d":
+        kw["net_config"] = zoo.net_config("vector")
+    elif actor == "default":
+        kw["net_config"] = zoo.net_config("vector")
     else:
         raise ValueError(actor)
-    return cls(osp, spaces.Discrete(arms), index=index, hp_config=zoo.hp_config(algo), lamb=lamb, gamma=gamma,
-               batch_size=8, lr=1e-3, actor_network=net)
+    return cls, osp, kw
+
+
+def make_agent(algo: str, actor: str, lamb, gamma, seed: int, index: int, k: int = 2, arms: int = 3, opts: dict = None):
+    zoo.seed_all(seed)
+    cls, osp, kw = agent_spec(algo, actor, lamb, gamma, k, arms, opts)
+    return cls(osp, spaces.Discrete(arms), index=index, **kw)
+
+
+def make_population(algo: str, actor: str, lamb, gamma, seed: int, size: int, k: int = 2, arms: int = 3, opts: dict = None):
+    """The population as agilerl.utils.utils.create_population builds it: one net_config dict / one actor_network object for all members."""
+    from agilerl.utils.utils import create_population
+    zoo.seed_all(seed)
+    cls, osp, kw = agent_spec(algo, actor, lamb, gamma, k, arms, opts)
+    hp = {"GAMMA": kw["gamma"], "LAMBDA": kw["lamb"], "BATCH_SIZE": kw["batch_size"], "LR": kw["lr"]}
+    if "reg" in kw:
+        hp["REG"] = kw["reg"]
+    if "learn_step" in kw:
+        hp["LEARN_STEP"] = kw["learn_step"]
+    return create_population(algo, osp, spaces.Discrete(arms), kw.get("net_config"), hp, hp_config=kw["hp_config"],
+                             actor_network=kw.get("actor_network"), population_size=size)
 
 
 def out_layer(agent):
@@ -112,7 +212,7 @@ def layer_numel(agent) -> int:
     return int(sum(p.numel() for p in out_layer(agent).parameters() if p.requires_grad))
 
 
-def arm_features(agent, obs) -> np.ndarray:
+def arm_features(agent, obs, with_mu: bool = False):
     """Gradient feature of every arm, (arms, numel of the output layer), float64; leaves .grad fields alone."""
     layer = out_layer(agent)
     params = [p for p in layer.parameters() if p.requires_grad]
@@ -123,7 +223,14 @@ def arm_features(agent, obs) -> np.ndarray:
         gr = torch.autograd.grad(mu[k].sum(), params, retain_graph=True, allow_unused=True)
         v = torch.cat([(g if g is not None else torch.zeros_like(p)).flatten() for g, p in zip(gr, params)])
         feats.append((v / np.sqrt(layer.weight.size(0))).detach().double().numpy())
-    return np.stack(feats)
+    F = np.stack(feats)
+    if with_mu:
+        return F, mu.detach().double().numpy().reshape(-1)
+    return F
+
+
+def lam_fraction(x: float) -> Fraction:
+    return Fraction(float(x)).limit_denominator(64)
 
 
 def snapshot(agent):
@@ -132,30 +239,105 @@ def snapshot(agent):
     s = agent.sigma_inv
     sq = bool(s.ndim == 2 and s.shape[0] == s.shape[1])
     return {"nil": False, "layer": layer_numel(agent), "dim": int(s.shape[0]), "sq": sq, "numel": int(agent.numel),
-            "exp_is_out": agent.exp_layer is out_layer(agent), "S": s.detach().cpu().double().numpy().copy()}
+            "exp_is_out": agent.exp_layer is out_layer(agent), "S": s.detach().cpu().double().numpy().copy(),
+            "lamf": float(agent.lamb)}
 
 
-def contexts(rng, arms: int, layer: int, actor: str, nobs: int):
-    """Integer contexts for the linear actors (small enough for 32-bit exact arithmetic in TLC), floats otherwise."""
-    if actor in ("lin", "linb"):
+def _mat(agent):
+    return agent.sigma_inv.detach().cpu().double().numpy().copy()
+
+
+def sample_space(space, n: int, rng: random.Random):
+    """n contexts of `space` (one per arm), deterministic from rng."""
+    if isinstance(space, spaces.Box):
+        if np.issubdtype(space.dtype, np.integer):
+            return np.array([rng.randint(0, 255) for _ in range(n * int(np.prod(space.shape)))], dtype=space.dtype).reshape((n, *space.shape))
+        lo, hi = float(np.min(space.low)), float(np.max(space.high))
+        return np.array([rng.uniform(lo, hi) for _ in range(n * int(np.prod(space.shape)))], dtype=np.float32).reshape((n, *space.shape))
+    if isinstance(space, spaces.Discrete):
+        return np.array([rng.randrange(int(space.n)) for _ in range(n)])
+    if isinstance(space, spaces.Dict):
+        return {k: sample_space(s, n, rng) for k, s in space.spaces.items()}
+    if isinstance(space, spaces.Tuple):
+        return tuple(sample_space(s, n, rng) for s in space.spaces)
+    raise ValueError(space)
+
+
+def contexts(rng, arms: int, layer: int, actor: str, agent):
+    """Integer contexts for the linear actors (small enough for 32-bit exact arithmetic in TLC), samples of the space otherwise."""
+    if actor in EXACT:
+        nin = int(agent.observation_space.shape[0])
         vals = [-1, 0, 1, 2] if layer <= 2 else [-1, 0, 1]
-        return np.array([[rng.choice(vals) for _ in range(NIN)] for _ in range(arms)], dtype=np.float32)
-    return np.array([[rng.uniform(-1, 1) for _ in range(nobs)] for _ in range(arms)], dtype=np.float32)
+        return np.array([[rng.choice(vals) for _ in range(nin)] for _ in range(arms)], dtype=np.float32)
+    return sample_space(agent.observation_space, arms, rng)
+
+
+class ProbeEnv:
+    """Bandit environment with the interface train_bandits / agent.test use (reset() -> contexts, step(arm) -> contexts, reward)."""
+
+    def __init__(self, seed: int, arms: int, gen):
+        self.rng, self.arms, self.gen = random.Random(seed), arms, gen
+
+    def reset(self):
+        return self.gen(self.rng)
+
+    def step(self, k):
+        return self.gen(self.rng), float(self.rng.randint(0, 1))
+
+
+class ForcedRng:
+    """The Mutations object's numpy Generator, except that a choice among architecture-method names returns `want`
+    (an input of the code under test: which architecture method the random generator picks)."""
+
+    def __init__(self, rng, want):
+        self._rng, self._want = rng, want
+
+    def choice(self, a, *args, **kw):
+        try:
+            opts = list(a)
+        except TypeError:
+            opts = []
+        if opts and all(isinstance(x, str) for x in opts) and self._want in opts:
+            return np.array([self._want])
+        return self._rng.choice(a, *args, **kw)
+
+    def __getattr__(self, name):
+        return getattr(self._rng, name)
+
+
+def mut_kind(agent, hint=None) -> str:
+    """Kind of the mutation that was applied, from agent.mut."""
+    m = str(agent.mut)
+    if m == "None":
+        return "none"
+    if m in ("param", "act"):
+        return m
+    try:
+        if m in list(agent.registry.hp_config.config.keys()):
+            return "hp"
+    except Exception:
+        pass
+    return "arch"
 
 
 class Runner:
-    def __init__(self, algo, actor, lamb, gamma, nslots=3, nfiles=2, seed=0, arms=3):
+    def __init__(self, algo, actor, lamb, gamma, nslots=NSLOTS, nfiles=NFILES, seed=0, arms=3, opts=None):
         self.algo, self.actor, self.lamb, self.gamma = algo, actor, lamb, gamma
         self.nslots, self.nfiles, self.seed, self.arms = nslots, nfiles, seed, arms
+        self.opts = dict(opts or {})
         self.slots = [None] * (nslots + 1)
         self.saved = {}                   # file -> matrix at save time
+        self.paths = {}                   # file -> path
         self.ev = []
         self.dir = tempfile.mkdtemp(prefix="bandit-")
         self.mutations = {}
+        self.methods = {}
+        self.depth = 0
 
     def close(self):
         shutil.rmtree(self.dir, ignore_errors=True)
 
+    # ---------------------------------------------------------------------------------------- helpers
     def mutations_for(self, kind):
         from agilerl.hpo.mutation import Mutations
         if kind not in self.mutations:
@@ -163,60 +345,184 @@ class Runner:
         return self.mutations[kind]
 
     def path(self, f):
-        return os.path.join(self.dir, f"f{f}.pt")
+        return self.paths.setdefault(f, os.path.join(self.dir, f"f{f}.pt"))
 
+    def new_event(self, op):
+        return {"op": op, "exc": "", "a": 0, "c": 0, "f": 0, "kind": "none"}
+
+    def snaps(self):
+        return [snapshot(self.slots[s]) for s in range(1, self.nslots + 1)]
+
+    def emit(self, e, snaps=None):
+        e["snaps"] = snaps if snaps is not None else self.snaps()
+        self.ev.append(e)
+
+    def fail(self, e, ex, where=""):
+        e["exc"] = f"{where}{type(ex).__name__}: {ex}"[:300]
+        e["tb"] = traceback.format_exc()[-800:]
+        e["snaps"] = [snapshot(None)] * self.nslots
+        self.ev.append(e)
+
+    def slot_of(self, agent):
+        for s in range(1, self.nslots + 1):
+            if self.slots[s] is agent:
+                return s
+        return self.alloc(agent)
+
+    def alloc(self, agent):
+        for s in range(1, self.nslots + 1):
+            if self.slots[s] is None:
+                self.slots[s] = agent
+                return s
+        raise RuntimeError("harness: out of slots")
+
+    def cls(self):
+        return type(next(x for x in self.slots if x is not None))
+
+    def resolve_mask(self, ag, F, mu, mask, var):
+        arms = F.shape[0]
+        if mask is None:
+            return None, None
+        if isinstance(mask, str):
+            if mask == "ones":
+                m = [1] * arms
+            elif mask == "single":
+                m = [0] * arms
+                m[self.seed % arms] = 1
+            elif mask == "notop":
+                if arms < 2:
+                    return None, None
+                S = ag.sigma_inv.detach().double().numpy()
+                if S.ndim == 2 and S.shape[0] == S.shape[1] == F.shape[1]:
+                    score = mu + float(ag.gamma) * np.sqrt(np.maximum(np.einsum("ai,ij,aj->a", F, S, F), 0.0))
+                else:
+                    score = mu
+                m = [1] * arms
+                m[int(np.argmax(score))] = 0
+            else:
+                raise ValueError(mask)
+        else:
+            m = [int(x) for x in mask][:arms] + [1] * max(0, arms - len(mask))
+            if not any(m):
+                m[0] = 1
+        dt = {"int": np.int64, "bool": np.bool_, "float": np.float32, "col": np.int64, None: np.int64}[var]
+        am = np.array(m, dtype=dt)
+        if var == "col":
+            am = am.reshape(-1, 1)
+        return m, am
+
+    def decide(self, ag, obs, mask, var, e, call):
+        """Shared by scripted decisions and the wrapped get_action of train jobs: features first, then the real call."""
+        F, mu = arm_features(ag, obs, with_mu=True)
+        e["feats"] = F
+        e["Spre"] = _mat(ag)
+        m, am = mask if isinstance(mask, tuple) else self.resolve_mask(ag, F, mu, mask, var)
+        e["mask"] = m
+        e["arm"] = int(call(am))
+
+    # ---------------------------------------------------------------------------------------- scripted operations
     def apply(self, op, e):
-        import random
         n = len(self.ev)
         if op[0] == "create":
-            _, s, k = op
+            s, k = op[1], op[2]
+            lamb = op[3] if len(op) > 3 and op[3] is not None else self.lamb
             e["a"] = s
-            self.slots[s] = make_agent(self.algo, self.actor, self.lamb, self.gamma, seed=self.seed * 7 + n, index=s - 1, k=k, arms=self.arms)
+            e["lam0"] = lamb
+            self.slots[s] = make_agent(self.algo, self.actor, lamb, self.gamma, seed=self.seed * 7 + n, index=s - 1, k=k, arms=self.arms,
+                                       opts=self.opts)
         elif op[0] == "decide":
-            _, s, cseed, mask = op
+            s, cseed, mask = op[1], op[2], op[3]
+            var = op[4] if len(op) > 4 else None
+            train = op[5] if len(op) > 5 else None
             e["a"] = s
             ag = self.slots[s]
             rng = random.Random(cseed)
-            nobs = int(ag.observation_space.shape[0])
-            obs = contexts(rng, self.arms, layer_numel(ag), self.actor, nobs)
-            e["obs"] = obs.tolist()
-            e["mask"] = mask
-            e["feats"] = arm_features(ag, obs)
-            e["Spre"] = ag.sigma_inv.detach().cpu().double().numpy().copy()
-            zoo.seed_all(self.seed * 13 + n)
-            am = None if mask is None else np.array(mask)
-            e["arm"] = int(ag.get_action(obs, action_mask=am))
+            obs = contexts(rng, self.arms, layer_numel(ag), self.actor, ag)
+            if self.actor in EXACT:
+                e["obs"] = obs.tolist()
+            if isinstance(obs, np.ndarray) and obs.dtype == np.float32:
+                # container / dtype of the contexts: float32 ndarray, float64 ndarray (what BanditEnv yields), torch tensor
+                e["ovar"] = ("f32", "f64", "torch")[cseed % 3]
+                obs = obs if cseed % 3 == 0 else obs.astype(np.float64) if cseed % 3 == 1 else torch.from_numpy(obs.copy())
+            if train is not None:
+                ag.set_training_mode(bool(train))
+            zoo_seed = self.seed * 13 + n
+
+            def call(am):
+                zoo.seed_all(zoo_seed)
+                return ag.get_action(obs, action_mask=am)
+            self.decide(ag, obs, mask, var, e, call)
         elif op[0] == "learn":
             _, s, b = op
             e["a"] = s
-            e["src"] = self.slots[s].sigma_inv.detach().cpu().double().numpy().copy()
-            zoo.learn(self.slots[s], self.algo, b)
+            e["src"] = _mat(self.slots[s])
+            ag = self.slots[s]
+            if isinstance(ag.observation_space, spaces.Box):
+                zoo.learn(ag, self.algo, b)
+            else:
+                # non-flat context spaces: learn() feeds its batch to the network as it is, so the batch holds preprocessed contexts
+                zoo.seed_all(7000 + b)
+                B = int(ag.batch_size)
+                rr = random.Random(1000 + b)
+                obs = ag.preprocess_observation(sample_space(ag.observation_space, B, rr))
+                ag.learn({"obs": obs, "reward": torch.tensor([[float(rr.randint(-1, 1))] for _ in range(B)])})
+        elif op[0] == "test":
+            _, s, nsteps = op
+            e["a"] = s
+            ag = self.slots[s]
+            e["src"] = _mat(ag)
+            lay, actor, arms = layer_numel(ag), self.actor, self.arms
+            env = ProbeEnv(self.seed * 17 + n, arms, lambda r: contexts(r, arms, lay, actor, ag))
+            zoo.seed_all(self.seed * 19 + n)
+            ag.test(env, swap_channels=False, max_steps=int(nsteps), loop=1 + (n % 2))
         elif op[0] == "mutate":
-            _, s, kind = op
-            e.update({"a": s, "kind": kind})
-            e["src"] = self.slots[s].sigma_inv.detach().cpu().double().numpy().copy()
+            s, kind = op[1], op[2]
+            via = op[3] if len(op) > 3 else "pop"
+            ag = self.slots[s]
+            base = "arch" if kind.startswith("arch") else kind
+            e.update({"a": s, "kind": base, "via": via})
+            e["src"] = _mat(ag)
             zoo.seed_all(self.seed * 31 + n)
-            out = self.mutations_for(kind).mutation([self.slots[s]])
+            m = self.mutations_for("arch" if kind.startswith(("arch#", "arch@")) else kind)
+            real_rng = m.rng
+            if kind.startswith("arch#") or kind.startswith("arch@"):
+                names = sorted(ag.actor.mutation_methods)
+                if kind.startswith("arch@") and kind[5:] in names:
+                    want = kind[5:]
+                else:           # a method that is not available for this network right now: any other one, deterministically
+                    i = int(kind.split("#")[1]) if kind.startswith("arch#") else sum(map(ord, kind))
+                    want = names[i % len(names)]
+                e["want"] = want
+                m.rng = ForcedRng(real_rng, want)
+            try:
+                if via == "direct":
+                    fn = {"arch": m.architecture_mutate, "param": m.parameter_mutation, "act": m.activation_mutation,
+                          "hp": m.rl_hyperparam_mutation, "none": m.no_mutation}[base]
+                    out = [fn(ag)]
+                else:
+                    out = m.mutation([ag], pre_training_mut=(via == "pre"))
+            finally:
+                m.rng = real_rng
             assert len(out) == 1
             self.slots[s] = out[0]
             e["mut"] = str(out[0].mut)
         elif op[0] == "clone":
-            _, a, c = op
+            a, c = op[1], op[2]
+            idx = op[3] if len(op) > 3 else "given"
             e.update({"a": a, "c": c})
-            e["src"] = self.slots[a].sigma_inv.detach().cpu().double().numpy().copy()
-            self.slots[c] = self.slots[a].clone(index=c - 1)
+            e["src"] = _mat(self.slots[a])
+            self.slots[c] = self.slots[a].clone(index=c - 1) if idx == "given" else self.slots[a].clone()
         elif op[0] == "save":
             _, a, f = op
             e.update({"a": a, "f": f})
-            e["src"] = self.slots[a].sigma_inv.detach().cpu().double().numpy().copy()
+            e["src"] = _mat(self.slots[a])
             self.slots[a].save_checkpoint(self.path(f))
-            self.saved[f] = self.slots[a].sigma_inv.detach().cpu().double().numpy().copy()
+            self.saved[f] = _mat(self.slots[a])
         elif op[0] == "loadnew":
             _, f, c = op
             e.update({"f": f, "c": c, "a": c})
             e["src"] = self.saved[f]
-            cls = type(next(x for x in self.slots if x is not None))
-            self.slots[c] = cls.load(self.path(f))
+            self.slots[c] = self.cls().load(self.path(f))
         elif op[0] == "loadinto":
             _, f, a = op
             e.update({"f": f, "a": a})
@@ -227,32 +533,224 @@ class Runner:
 
     def run(self, ops):
         for op in ops:
-            e = {"op": op[0], "exc": "", "a": 0, "c": 0, "f": 0, "kind": "none"}
+            e = self.new_event(op[0])
             try:
                 self.apply(op, e)
             except Exception as ex:
-                import traceback
-                e["exc"] = f"{type(ex).__name__}: {ex}"[:300]
-                e["tb"] = traceback.format_exc()[-800:]
-                e["snaps"] = [snapshot(None)] * self.nslots
-                self.ev.append(e)
+                self.fail(e, ex)
                 break
             try:
-                e["snaps"] = [snapshot(self.slots[s]) for s in range(1, self.nslots + 1)]
+                self.emit(e)
             except Exception as ex:
-                e["exc"] = f"snapshot: {type(ex).__name__}: {ex}"[:300]
-                e["snaps"] = [snapshot(None)] * self.nslots
-                self.ev.append(e)
+                self.fail(e, ex, "snapshot: ")
                 break
-            self.ev.append(e)
+        return self.result(ops)
+
+    def result(self, ops):
         return {"algo": self.algo, "actor": self.actor, "lamb": self.lamb, "gamma": self.gamma, "nslots": self.nslots,
-                "nfiles": self.nfiles, "seed": self.seed, "arms": self.arms, "ops": [list(o) for o in ops], "ev": self.ev}
+                "nfiles": self.nfiles, "seed": self.seed, "arms": self.arms, "opts": self.opts, "ops": [list(o) for o in ops], "ev": self.ev}
+
+    # ---------------------------------------------------------------------------------------- the real training loop
+    def run_train(self, tp):
+        """train_bandits on a population of tp["pop"] agents; every operation of the loop becomes an event."""
+        from agilerl.components.replay_buffer import ReplayBuffer
+        from agilerl.hpo.mutation import Mutations
+        from agilerl.hpo.tournament import TournamentSelection
+        from agilerl.training.train_bandits import train_bandits
+
+        R = self
+        arms, actor = self.arms, self.actor
+        pop = []
+        made = None
+        for i in range(tp["pop"]):
+            e = self.new_event("create")
+            try:
+                if tp.get("create") == "create_population":
+                    if made is None:
+                        made = make_population(self.algo, actor, self.lamb, self.gamma, self.seed * 7, tp["pop"], k=tp.get("k", 2), arms=arms, opts=self.opts)
+                    ag = made[i]
+                else:
+                    ag = make_agent(self.algo, actor, self.lamb, self.gamma, seed=self.seed * 7 + i, index=i, k=tp.get("k", 2), arms=arms, opts=self.opts)
+                s = self.alloc(ag)
+                e["a"] = s
+                e["lam0"] = self.lamb
+                self.emit(e)
+                pop.append(ag)
+            except Exception as ex:
+                self.fail(e, ex)
+                return self.result([["train", tp]])
+        cls = type(pop[0])
+        if actor in EXACT:
+            nin = int(pop[0].observation_space.shape[0])
+            env = ProbeEnv(self.seed * 17 + 3, arms, lambda r: np.array([[r.choice([-1, 0, 1]) for _ in range(nin)] for _ in range(arms)], dtype=np.float32))
+        else:
+            import pandas as pd
+            from agilerl.wrappers.learning import BanditEnv
+            rs = np.random.RandomState(self.seed + 5)
+            nfeat = int(pop[0].observation_space.shape[0]) // arms
+            feats = pd.DataFrame(rs.uniform(-1, 1, size=(12, nfeat)))
+            targets = pd.DataFrame(np.arange(12) % arms)
+            env = BanditEnv(feats, targets)
+        orig = {n: getattr(cls, n) for n in ("get_action", "learn", "test", "clone", "save_checkpoint")}
+
+        class Abort(Exception):
+            pass
+
+        def guarded(e, fn):
+            try:
+                return fn()
+            except Abort:
+                raise
+            except Exception as ex:
+                R.fail(e, ex)
+                raise Abort() from ex
+
+        def w_get_action(agent, obs, action_mask=None):
+            if R.depth:
+                return orig["get_action"](agent, obs, action_mask)
+            e = R.new_event("decide")
+            e["a"] = R.slot_of(agent)
+            if actor in EXACT:
+                e["obs"] = np.asarray(obs).tolist()
+            out = {}
+
+            def call(am):
+                out["arm"] = orig["get_action"](agent, obs, action_mask)
+                return out["arm"]
+            guarded(e, lambda: R.decide(agent, obs, (None, None), None, e, call))
+            R.emit(e)
+            return out["arm"]
+
+        def simple(opname, name):
+            def w(agent, *a, **kw):
+                if R.depth:
+                    return orig[name](agent, *a, **kw)
+                e = R.new_event(opname)
+                e["a"] = R.slot_of(agent)
+                e["src"] = _mat(agent)
+                R.depth += 1
+                try:
+                    r = guarded(e, lambda: orig[name](agent, *a, **kw))
+                finally:
+                    R.depth -= 1
+                R.emit(e)
+                return r
+            return w
+
+        def w_clone(agent, *a, **kw):
+            if R.depth:
+                return orig["clone"](agent, *a, **kw)
+            e = R.new_event("clone")
+            e["a"] = R.slot_of(agent)
+            e["src"] = _mat(agent)
+            R.depth += 1
+            try:
+                new = guarded(e, lambda: orig["clone"](agent, *a, **kw))
+            finally:
+                R.depth -= 1
+            e["c"] = guarded(e, lambda: R.alloc(new))
+            R.emit(e)
+            return new
+
+        def w_save(agent, path):
+            e = R.new_event("save")
+            e["a"] = R.slot_of(agent)
+            f = len(R.paths) + 1
+            if f > R.nfiles:                      # more checkpoints than the trace can name: not recorded
+                return orig["save_checkpoint"](agent, path)
+            e["f"] = f
+            e["src"] = _mat(agent)
+            guarded(e, lambda: orig["save_checkpoint"](agent, path))
+            R.paths[f] = path
+            R.saved[f] = _mat(agent)
+            R.emit(e)
+
+        mut = Mutations(no_mutation=tp["probs"][0], architecture=tp["probs"][1], new_layer_prob=0.5, parameters=tp["probs"][2],
+                        activation=tp["probs"][3], rl_hp=tp["probs"][4], mutation_sd=0.1, mutate_elite=tp["mutate_elite"],
+                        rand_seed=self.seed + 11)
+        orig_mutation = mut.mutation
+
+        def w_mutation(population, pre_training_mut=False):
+            slots = [R.slot_of(a) for a in population]
+            before = R.snaps()
+            srcs = [_mat(a) for a in population]
+            e0 = R.new_event("mutate")
+            e0["a"] = slots[0] if slots else 0
+            R.depth += 1
+            try:
+                out = guarded(e0, lambda: orig_mutation(population, pre_training_mut=pre_training_mut))
+            finally:
+                R.depth -= 1
+            for s, new in zip(slots, out):
+                R.slots[s] = new
+            after = R.snaps()
+            done = set()
+            for s, src, new in zip(slots, srcs, out):
+                done.add(s)
+                e = R.new_event("mutate")
+                e.update({"a": s, "kind": mut_kind(new), "via": "pre" if pre_training_mut else "pop", "src": src, "mut": str(new.mut)})
+                # members mutated later in the same call still show their state before the call
+                R.emit(e, [after[i] if (i + 1) in done or (i + 1) not in slots else before[i] for i in range(R.nslots)])
+            return out
+
+        mut.mutation = w_mutation
+        tour = TournamentSelection(tournament_size=tp["tsize"], elitism=tp["elitism"], population_size=tp["pop"], eval_loop=tp["eval_loop"])
+        memory = ReplayBuffer(max_size=64, device="cpu")
+        final = pop
+        try:
+            cls.get_action, cls.learn, cls.test = w_get_action, simple("learn", "learn"), simple("test", "test")
+            cls.clone, cls.save_checkpoint = w_clone, w_save
+            zoo.seed_all(self.seed * 23 + 1)
+            import contextlib
+            import io
+            try:
+                with contextlib.redirect_stdout(io.StringIO()), contextlib.redirect_stderr(io.StringIO()):
+                    final, _ = train_bandits(env, "probe", self.algo, pop, memory, max_steps=tp["gens"] * tp["episode_steps"],
+                                             episode_steps=tp["episode_steps"], evo_steps=tp["episode_steps"], eval_steps=tp["eval_steps"],
+                                             eval_loop=tp["eval_loop"], tournament=tour, mutation=mut,
+                                             save_elite=bool(tp.get("save_elite")), elite_path=os.path.join(self.dir, "elite"),
+                                             checkpoint=(tp["episode_steps"] if tp["checkpoint"] else None),
+                                             checkpoint_path=os.path.join(self.dir, "ckpt"), overwrite_checkpoints=False, verbose=False, wb=False)
+                # every member of the returned population takes a decision; a checkpoint written by the loop is loaded and decides
+                for ag in final:
+                    ag.get_action(env.reset())
+            except Abort:
+                return self.result([["train", tp]])
+            except Exception as ex:
+                e = self.new_event("train")
+                self.fail(e, ex, "train_bandits: ")
+                return self.result([["train", tp]])
+        finally:
+            for n, f in orig.items():
+                setattr(cls, n, f)
+        if self.paths:
+            e = self.new_event("loadnew")
+            try:
+                f = sorted(self.paths)[-1]
+                e.update({"f": f, "src": self.saved[f]})
+                new = cls.load(self.paths[f])
+                c = self.alloc(new)
+                e.update({"c": c, "a": c})
+                self.emit(e)
+                e = self.new_event("decide")
+                e["a"] = c
+                obs = env.reset()
+                if actor in EXACT:
+                    e["obs"] = np.asarray(obs).tolist()
+                zoo.seed_all(self.seed * 29)
+                self.decide(new, obs, (None, None), None, e, lambda am: new.get_action(obs))
+                self.emit(e)
+            except Exception as ex:
+                self.fail(e, ex)
+        return self.result([["train", tp]])
 
 
-def run_script(algo, actor, lamb, gamma, ops, seed=0, nslots=3, nfiles=2, arms=3):
+def run_script(algo, actor, lamb, gamma, ops, seed=0, nslots=NSLOTS, nfiles=NFILES, arms=3, opts=None):
     torch.set_num_threads(1)
-    r = Runner(algo, actor, lamb, gamma, nslots, nfiles, seed, arms)
+    r = Runner(algo, actor, lamb, gamma, nslots, nfiles, seed, arms, opts)
     try:
+        if ops and ops[0][0] == "train":
+            return r.run_train(dict(ops[0][1]))
         return r.run(ops)
     finally:
         r.close()
@@ -271,31 +769,61 @@ def init_scale(raw):
     return c
 
 
+def homogeneous(raw) -> bool:
+    """Every agent of the execution has the job's lambda all the time (then a `relative` trace makes sense)."""
+    if raw["opts"].get("lam_hp"):
+        return False
+    for e in raw["ev"]:
+        if e["op"] == "create" and "lam0" in e and float(e["lam0"]) != float(raw["lamb"]):
+            return False
+        for sn in e["snaps"]:
+            if not sn["nil"] and float(sn["lamf"]) != float(raw["lamb"]):
+                return False
+    return True
+
+
 def _micro(x: float) -> int:
     if not np.isfinite(x) or abs(x) > 1000:
         return BIG
     return int(round(x * 1e6))
 
 
+def _fr(x: Fraction):
+    return [x.numerator, x.denominator]
+
+
 def _hdr(raw, lam: Fraction, mode: str):
-    import json
-    return {"algo": raw["algo"], "actor": raw["actor"], "lamb": raw["lamb"], "gamma": raw["gamma"], "lam": [lam.numerator, lam.denominator],
-            "mode": mode, "kind": "exact" if raw["actor"] in ("lin", "linb") else "inexact",
-            "seed": raw["seed"], "arms": raw["arms"], "ops": json.dumps(raw["ops"])}
+    return {"algo": raw["algo"], "actor": raw["actor"], "lamb": raw["lamb"], "gamma": raw["gamma"], "lam": _fr(lam),
+            "mode": mode, "kind": "exact" if raw["actor"] in EXACT else "inexact",
+            "seed": raw["seed"], "arms": raw["arms"], "opts": json.dumps(raw["opts"]), "ops": json.dumps(raw["ops"])}
+
+
+def _base(e, lam: Fraction, mode: str):
+    t = {k: e[k] for k in ("op", "exc", "a", "c", "f", "kind")}
+    if e["op"] == "create":
+        t["lam0"] = _fr(lam if mode == "relative" else lam_fraction(e.get("lam0", 1.0)))
+    for k in ("via", "want", "mut"):
+        if k in e:
+            t[k] = e[k]
+    return t
+
+
+def _lam_of(sn, lam: Fraction, mode: str) -> Fraction:
+    return lam if mode == "relative" else lam_fraction(sn["lamf"])
 
 
 def exact_trace(raw, lam: Fraction, mode: str):
     """Trace for Bandit_Trace.tla: integer features, matrices in units of 1e-6."""
     ev = []
     for e in raw["ev"]:
-        t = {k: e[k] for k in ("op", "exc", "a", "c", "f", "kind")}
+        t = _base(e, lam, mode)
         if e["op"] == "decide" and not e["exc"]:
             fr = np.rint(e["feats"])
             if np.abs(fr - e["feats"]).max() > 1e-9:
                 raise RuntimeError(f"linear actor produced a non-integral gradient feature: {e['feats']}")
             t["feats"] = fr.astype(int).tolist()
             t["arm"] = e["arm"]
-            t["obs"] = e["obs"]
+            t["obs"] = e.get("obs", [])
             t["mask"] = e["mask"] if e["mask"] is not None else []
         post = []
         for sn in e["snaps"]:
@@ -303,7 +831,7 @@ def exact_trace(raw, lam: Fraction, mode: str):
                 post.append({"nil": True})
             else:
                 post.append({"nil": False, "layer": sn["layer"], "dim": sn["dim"], "sq": sn["sq"], "numel": sn["numel"],
-                             "exp_is_out": sn["exp_is_out"],
+                             "exp_is_out": sn["exp_is_out"], "lam": _fr(_lam_of(sn, lam, mode)),
                              "S": [[_micro(v) for v in row] for row in sn["S"]] if sn["sq"] else []})
         t["post"] = post
         if e["exc"]:
@@ -318,8 +846,7 @@ EQ_TOL = 1e-7
 
 def float_trace(raw, lam: Fraction, mode: str):
     """Trace for Banditx_Trace.tla: per slot the decision history the driver used and the class of the
-    residual  max | S (lam I + sum_{d in hist} g_d g_d^T) - I |."""
-    lamf = float(lam)
+    residual  max | S (lam I + sum_{d in hist} g_d g_d^T) - I |  (lam: the slot's own lambda)."""
     ns = raw["nslots"]
     hist = {s: [] for s in range(1, ns + 1)}
     fhist = {}
@@ -327,8 +854,11 @@ def float_trace(raw, lam: Fraction, mode: str):
     prev = {s: None for s in range(1, ns + 1)}
     ev = []
 
+    def lamf(sn):
+        return float(lam) if mode == "relative" else float(sn["lamf"])
+
     def isinit(sn):
-        return bool(sn["sq"] and sn["dim"] == sn["layer"] and np.abs(sn["S"] - np.eye(sn["dim"]) / lamf).max() <= 1e-6)
+        return bool(sn["sq"] and sn["dim"] == sn["layer"] and np.abs(sn["S"] - np.eye(sn["dim"]) / lamf(sn)).max() <= 1e-6 * max(1.0, 1.0 / lamf(sn)))
 
     def eq(sn, M):
         return bool(M is not None and sn["sq"] and M.shape == sn["S"].shape and np.abs(sn["S"] - M).max() <= EQ_TOL)
@@ -337,7 +867,7 @@ def float_trace(raw, lam: Fraction, mode: str):
         if not sn["sq"]:
             return "bad", float("inf")
         d = sn["dim"]
-        G = lamf * np.eye(d)
+        G = lamf(sn) * np.eye(d)
         for i in h:
             g = gvec[i]
             if g.shape[0] != d:
@@ -347,7 +877,7 @@ def float_trace(raw, lam: Fraction, mode: str):
         return ("ok" if np.isfinite(r) and r <= RES_TOL else "bad"), r
 
     for l, e in enumerate(raw["ev"], start=1):
-        t = {k: e[k] for k in ("op", "exc", "a", "c", "f", "kind")}
+        t = _base(e, lam, mode)
         if e["exc"]:
             t["post"] = [{"nil": True}] * ns
             t["tb"] = e.get("tb", "")
@@ -384,6 +914,7 @@ def float_trace(raw, lam: Fraction, mode: str):
                 continue
             cls, r = residual(p, hist[s])
             q = {"nil": False, "layer": p["layer"], "dim": p["dim"], "sq": p["sq"], "numel": p["numel"], "exp_is_out": p["exp_is_out"],
+                 "lam": _fr(_lam_of(p, lam, mode)),
                  "hist": list(hist[s]), "res": cls, "resid": (r if np.isfinite(r) else -1.0),
                  "isinit": isinit(p), "same": eq(p, prev[s]["S"]) if prev[s] is not None and not prev[s]["nil"] else False,
                  "eqsrc": eq(p, e.get("src")) if s == tgt and "src" in e else False}
@@ -394,14 +925,10 @@ def float_trace(raw, lam: Fraction, mode: str):
     return {"cfg": _hdr(raw, lam, mode), "ev": ev}
 
 
-def lam_fraction(x: float) -> Fraction:
-    return Fraction(x).limit_denominator(64)
-
-
 # ------------------------------------------------------------------------------------------- jobs
 def observed_protocol(raw, c):
     """For the evidence file: what the real code did to the matrix at every non-decision operation
-    (reinit = c I of the output layer's size, carry = the source's matrix)."""
+    (reinit = (1/lambda) I of the output layer's size, carry = the source's matrix)."""
     out = {}
     for e in raw["ev"]:
         if e["exc"] or e["op"] in ("create", "decide"):
@@ -411,9 +938,9 @@ def observed_protocol(raw, c):
         if sn["nil"] or not sn["sq"]:
             continue
         S, src = sn["S"], e.get("src")
-        ini = c is not None and np.abs(S - c * np.eye(S.shape[0])).max() <= 1e-6
+        ini = np.abs(S - np.eye(S.shape[0]) / sn["lamf"]).max() <= 1e-6 * max(1.0, 1.0 / sn["lamf"])
         car = src is not None and src.shape == S.shape and np.abs(S - src).max() <= EQ_TOL
-        key = e["op"] + (":" + e["kind"] if e["op"] == "mutate" else "")
+        key = e["op"] + (":" + e["kind"] if e["op"] == "mutate" else "") + (":" + e["via"] if e.get("via", "pop") != "pop" else "")
         if src is not None and src.shape != S.shape:
             key += ":resized"
         what = "carry=reinit" if (ini and car) else "reinit" if ini else "carry" if car else "other"
@@ -423,19 +950,35 @@ def observed_protocol(raw, c):
 
 
 def run_job(job):
-    """job = (algo, actor, lamb, gamma, ops, seed, arms) -> {"exact": [traces], "float": [traces], "protocol": {...}}"""
-    algo, actor, lamb, gamma, ops, seed, arms = job
-    raw = run_script(algo, actor, lamb, gamma, ops, seed=seed, arms=arms)
+    """job = (algo, actor, lamb, gamma, ops, seed, arms[, opts]) -> traces + statistics; ops = [("train", params)] runs train_bandits"""
+    algo, actor, lamb, gamma, ops, seed, arms = job[:7]
+    opts = job[7] if len(job) > 7 else {}
+    raw = run_script(algo, actor, lamb, gamma, ops, seed=seed, arms=arms, opts=opts)
     lam = lam_fraction(lamb)
     c = init_scale(raw)
-    proj = exact_trace if actor in ("lin", "linb") else float_trace
+    proj = exact_trace if actor in EXACT else float_trace
     traces = [proj(raw, lam, "strict")]
-    if c is not None and abs(c - 1.0 / float(lam)) > 1e-6:
+    if c is not None and abs(c - 1.0 / float(lam)) > 1e-6 * max(1.0, c) and homogeneous(raw):
         # the real agent starts from c I with c != 1/lambda: additionally validate everything else relative to
         # the lambda this scale corresponds to (the strict trace is rejected at the first event)
         traces.append(proj(raw, lam_fraction(1.0 / c), "relative"))
     resized = sum(1 for i in range(1, len(raw["ev"])) for a, b in zip(raw["ev"][i - 1]["snaps"], raw["ev"][i]["snaps"])
                   if not a["nil"] and not b["nil"] and a["layer"] != b["layer"])
-    return {"kind": "exact" if actor in ("lin", "linb") else "float", "traces": traces,
-            "protocol": observed_protocol(raw, c), "resized": resized, "nev": len(raw["ev"]),
+    stats = {}
+    for e in raw["ev"]:
+        if e["exc"]:
+            continue
+        k = e["op"]
+        if k == "mutate":
+            k += ":" + e["kind"] + (":" + e["via"] if e.get("via", "pop") != "pop" else "")
+            if "want" in e:
+                stats["archmethod:" + e["want"]] = stats.get("archmethod:" + e["want"], 0) + 1
+        if k == "decide" and e.get("mask") is not None:
+            k += ":masked"
+        stats[k] = stats.get(k, 0) + 1
+    lamch = sum(1 for i in range(1, len(raw["ev"])) for a, b in zip(raw["ev"][i - 1]["snaps"], raw["ev"][i]["snaps"])
+                if not a["nil"] and not b["nil"] and a["lamf"] != b["lamf"])
+    return {"kind": "exact" if actor in EXACT else "float", "traces": traces,
+            "protocol": observed_protocol(raw, c), "resized": resized, "nev": len(raw["ev"]), "stats": stats, "lam_changes": lamch,
+            "crashed": next((e["exc"] for e in raw["ev"] if e["exc"]), ""),
             "decisions": sum(1 for e in raw["ev"] if e["op"] == "decide" and not e["exc"])}
